@@ -500,11 +500,21 @@ func c01SplitOnDust(s *c01TxScn) {
 			h := &s.htlcs[q][i]
 			// A's view of the commitment of s.chain: the very call
 			// createUnsignedCommitmentTx makes
-			if HtlcIsDust(
+			d := HtlcIsDust(
 				chanstate.ChannelType(s.ct), q == 1, c01Party(s.chain, 0),
 				chainfee.SatPerKWeight(s.feePerKw),
 				lnwire.MilliSatoshi(h.amt).ToSatoshis(), btcutil.Amount(s.dust[s.chain]),
-			) {
+			)
+			if d {
+				c01Sink++
+			} else {
+				c01Sink--
+			}
+			// the same for the reference predicate (BOLT-3 rule), which
+			// agrees with lnd's (also proven in VerifC01Dust)
+			r := c01RefDust(s.ct, q == s.chain, s.feePerKw, h.amt, s.dust[s.chain])
+			vAssert(d == r, "HtlcIsDust equals BOLT-3 trimming rule")
+			if r {
 				c01Sink++
 			} else {
 				c01Sink--
@@ -516,13 +526,7 @@ func c01SplitOnDust(s *c01TxScn) {
 // c01CheckTx builds the commitment of s.chain on both sides and checks it.
 func c01CheckTx(s *c01TxScn) {
 	c01SplitOnDust(s)
-	ra := c01Build(s, 0)
-	rb := c01Build(s, 1)
 	X := s.chain
-
-	vObserve("errA", ra.err != nil)
-	vObserve("errB", rb.err != nil)
-	vAssert((ra.err != nil) == (rb.err != nil), "mirror: both sides build the commitment or both refuse")
 
 	// ---- reference: BOLT-3 fee and trimming ----
 	var untrim int64
@@ -577,8 +581,17 @@ func c01CheckTx(s *c01TxScn) {
 	// opener cannot pay the fee and outputs plus the nominal fee exceed the
 	// capacity
 	wantRefuse := (nOut == 0 && untrim == 0) || wantTotal+fee > s.capacity
+	// arithmetic fact (integer reasoning; discharged once, then available to
+	// every later query): with I3, when the opener pays the whole fee the
+	// outputs and the fee fit into the capacity
+	vLemma(!canPay || wantTotal+fee <= s.capacity, "when the opener can afford the fee, outputs + fee never exceed the capacity")
+
+	ra := c01Build(s, 0)
+	rb := c01Build(s, 1)
+	vObserve("errA", ra.err != nil)
+	vObserve("errB", rb.err != nil)
+	vAssert((ra.err != nil) == (rb.err != nil), "mirror: both sides build the commitment or both refuse")
 	vAssert((ra.err != nil) == wantRefuse, "the commitment is refused iff it would have no outputs or outputs + fee exceed the capacity")
-	vAssert(canPay == false || wantTotal+fee <= s.capacity, "when the opener can afford the fee, outputs + fee never exceed the capacity")
 	if ra.err != nil || rb.err != nil {
 		vReach("refused")
 		return
